@@ -91,7 +91,49 @@ theorem snapshot_fields_map (as : List Action) (s : State) (hnr : NoReset as)
     have : c.interval * k ≤ s.numYielded ∧ s.numYielded < c.interval * (k + 1) := ⟨h2, by rw [Nat.mul_succ]; exact h3⟩
     exact (Nat.div_eq_of_lt_le (by rw [Nat.mul_comm]; exact this.1) (by rw [Nat.mul_comm]; exact this.2)).symm
 
+/-- **C03 liveness, `progress`.**  Whenever the consumer is blocked inside `next()`, some worker can
+handle a message, or a result can be received, or (a worker that still owes work is dead) the liveness
+poll is enabled and raises the worker-died error: the protocol never deadlocks, for every schedule and
+any number of kills. -/
+theorem progress_map (as : List Action) (s : State) (hnr : NoReset as)
+    (hr : run c (init c) as = some s) (hd : ¬ died s) (hph : s.phase = .waiting) :
+    (∃ s', step c s .recv = some s') ∨ (∃ w s', step c s (.work w) = some s') ∨
+    (∃ s', step c s .pollTimeout = some s' ∧ died s') := by
+  obtain ⟨h1, _, h3⟩ := reach_map_all c hv hm hio as s hnr hr hd
+  exact progress_of_inv c s hv h1 h3 hph
+
+/-- **C03 liveness, decreasing measure.**  Every `work` step, and every `recv` step that leaves the
+consumer blocked, strictly decreases `2·(queued index messages) + (results in flight)`; together with
+`progress_map` every fair run of `next()` returns. -/
+theorem variant_map (as : List Action) (s s' : State) (a : Action) (hnr : NoReset as)
+    (hr : run c (init c) as = some s) (hd : ¬ died s) (hst : step c s a = some s')
+    (ha : a = .recv ∨ ∃ w, a = .work w) (hph : s'.phase = .waiting) : measure s' < measure s := by
+  rcases ha with rfl | ⟨w, rfl⟩
+  · exact recv_decreases_map c s s' hv hm hio (reach_map c hv hm hio as s hnr hr hd).1 hst hph
+  · exact work_decreases c s s' w hst
+
+/-- **C09 `kill_safe`** (map-style): with any number of `kill` actions in the schedule, as long as no
+worker death has been reported the yields are a prefix of the reference stream, and StopIteration is
+only ever raised after every task of the epoch has been answered (in particular never while a task of
+a dead, not yet retired worker is outstanding). -/
+theorem kill_safe_map (as : List Action) (s : State) (hnr : NoReset as)
+    (hr : run c (init c) as = some s) (hd : ¬ died s) (ha : Obs.assertion ∉ s.obs) :
+    yields s.obs <+: oks (refStream c) ∧
+    (Obs.stop ∈ s.obs → s.rcvdIdx = c.batches.length ∧ taskObs s.obs = (refStream c).map expected) := by
+  refine ⟨yields_prefix_ref_map c hv hm hio as s hnr hr hd ha, fun hstop => ?_⟩
+  exact ⟨(reach_map c hv hm hio as s hnr hr hd).1.fin hstop,
+    (epoch_complete_map c hv hm hio as s hnr hr hd ha hstop).1⟩
+
 end Map
+
+/-- **C09 `kill_detected`** (every configuration, every state): if the consumer is blocked with an empty
+result queue and some worker that is still expected to work (`_workers_status` true) is not alive,
+then the liveness poll is enabled, raises the worker-died error and returns control to the consumer. -/
+theorem kill_detected (c : Cfg) (s : State) (w : Nat) (k : Worker) (hph : s.phase ≠ .idle) (hq : s.resQ = [])
+    (hw : w < c.W) (hup : up s w = true) (hk : s.workers[w]? = some k) (hdead : k.alive = false) :
+    ∃ s', step c s .pollTimeout = some s' ∧ died s' ∧ s'.phase = .idle := by
+  obtain ⟨s', h1, h2, h3⟩ := pollTimeout_detects c s w k hph hq hw hup hk hdead
+  exact ⟨s', h1, by unfold died; rw [h2]; simp, h3⟩
 
 /-- **C10 `error_position`, full statement** (all intervals, all failing sets, every schedule): not a
 theorem of the current code. -/
